@@ -10,6 +10,9 @@ import OFV.Proofs.C02Majorana
 import OFV.Proofs.C02Pred
 import OFV.Proofs.C02Tensor
 import OFV.Proofs.C02MajEq
+import OFV.Proofs.C02Clifford
+import OFV.Proofs.C03Main
+import OFV.Proofs.C03Exact
 
 namespace OFV.C02
 open OFV OFV.Model OFV.Model.C02 OFV.Proofs.C02
@@ -167,6 +170,14 @@ theorem commutes_shortcut_iff_products_equal (ta tb : MTerm) (ca cb : GQ) (h : c
       simpa using he
     exact (mul_sgn_eq_iff (ca * cb) h _ _).1 this
 
+/-- **`_majorana_terms_commute` decides commutation in the Spec** (Majorana action `Spec.actM` on
+Fock bit masks, `γ_{2j} = a_j + a_j^†`, `γ_{2j+1} = i(a_j^† - a_j)`): for strictly increasing index
+lists the shortcut is True iff `γ_a γ_b` and `γ_b γ_a` act identically on every basis state.
+Uses the shared soundness lemma of `_merge_majorana_terms` (C01) and the parity identity above. -/
+theorem majorana_terms_commute_iff (a b : MTerm) (ha : a.Pairwise (· < ·)) (hb : b.Pairwise (· < ·)) :
+    majoranaTermsCommute a b = true ↔ ∀ s, Spec.actMTerm (a ++ b) s = Spec.actMTerm (b ++ a) s :=
+  majoranaTermsCommute_iff_spec a b ha hb
+
 example : majoranaTermsCommute [0, 1] [1, 2] = false ∧ majoranaTermsCommute [0, 1] [2, 3] = true := by
   simp [majoranaTermsCommute, interM]
 
@@ -289,5 +300,51 @@ theorem is_identity_iff (a : Op) : isIdentity a = true ↔ ∃ c, a = [([], c)] 
       simp at h'
       exact ⟨c, by rw [h']⟩
   · rintro ⟨c, rfl⟩; rfl
+
+/-! ## `is_hermitian(FermionOperator)` — relies on the canonicity of normal ordering (C03) -/
+
+/-- A FermionOperator is Hermitian in the Spec (`⟨out|A|s⟩ = conj ⟨s|A|out⟩` on all Fock basis
+states) IF AND ONLY IF `normal_ordered(A)` and `normal_ordered(hermitian_conjugated(A))` have the
+same coefficients — the two dictionaries `is_hermitian` compares.  (Uses: `hermitian_conjugated`
+conjugate-transposes the Spec matrix elements; soundness and canonicity of normal ordering.) -/
+theorem is_hermitian_fermion_iff (a : Op) (wa : Dict.WF a) (hv : ∀ e ∈ a, ∀ f ∈ e.1, f.2 < 2) :
+    (∀ s out, Spec.melF a out s = (Spec.melF a s out).conj) ↔
+      ∀ t, Dict.getD (C03.normalOrdered 0 .fermion a) t 0 =
+        Dict.getD (C03.normalOrdered 0 .fermion (hcFermion a)) t 0 :=
+  Proofs.C03.hermitian_fermion_iff a wa hv
+
+/-- equal coefficient functions compare equal (positive tolerance) -/
+theorem isclose_of_coefficients_equal (tol : Rat) (ht : 0 < tol) (X Y : Op)
+    (h : ∀ t, Dict.getD X t 0 = Dict.getD Y t 0) : isclose tol X Y = true := by
+  rw [isclose_iff_spec]
+  intro t
+  have := h t
+  unfold Dict.getD at this
+  cases hx : Dict.get? X t <;> cases hy : Dict.get? Y t <;> simp only [hx, hy, Option.getD] at this
+  · rfl
+  · simp only [Spec.C02.coefClose]; rw [← this, spec_absLt_iff]
+    exact ⟨ht, by simp [GQ.normSq]; exact ne_of_gt ht⟩
+  · simp only [Spec.C02.coefClose]; rw [this, spec_absLt_iff]
+    exact ⟨ht, by simp [GQ.normSq]; exact ne_of_gt ht⟩
+  · rw [this]; exact coefClose_refl tol ht _
+
+/-- completeness of the coded test in the exact regime: a Hermitian FermionOperator with
+coefficients on a lattice `(1/D)ℤ[i]`, `0 < tol`, `tol·D ≤ 1`, is recognised. -/
+theorem is_hermitian_fermion_complete (D : Nat) (hD : 0 < D) (tol : Rat) (ht : 0 < tol) (h1 : tol * D ≤ 1)
+    (a : Op) (wa : Dict.WF a) (hv : ∀ e ∈ a, ∀ f ∈ e.1, f.2 < 2) (la : ∀ e ∈ a, Proofs.C03.Lat D e.2)
+    (hh : ∀ s out, Spec.melF a out s = (Spec.melF a s out).conj) :
+    isHermitianFermion tol a = true := by
+  unfold isHermitianFermion
+  apply isclose_of_coefficients_equal tol ht
+  intro t
+  have lh : ∀ e ∈ hcFermion a, Proofs.C03.Lat D e.2 := by
+    rw [Proofs.C03.hcFermion_eq_map a wa hv]
+    intro e he
+    obtain ⟨x, hx, rfl⟩ := List.mem_map.1 he
+    obtain ⟨m, n, h1', h2'⟩ := la x hx
+    exact ⟨m, -n, by simp [GQ.conj, h1'], by simp [GQ.conj, h2']; ring⟩
+  rw [Proofs.C03.normal_ordered_exact_regime_aux D hD tol (le_of_lt ht) h1 a la,
+    Proofs.C03.normal_ordered_exact_regime_aux D hD tol (le_of_lt ht) h1 (hcFermion a) lh]
+  exact (is_hermitian_fermion_iff a wa hv).1 hh t
 
 end OFV.C02
